@@ -22,6 +22,83 @@ def inOf? (j : Json) : Option In := do
          deletedEvent := ← b "deletedEvent", consistent := ← b "consistent",
          spawnDelays := ← b "spawnDelays", changeDelays := ← b "changeDelays" }
 
+/-! ### Trace acceptance: replay the labels of a whole-operator run through `lstep` -/
+
+def envOf? (j : Json) : Option Env := do
+  let b (k : String) : Option Bool := do jBool? (← jField? j k)
+  some { consistent := ← b "consistent", merge := ← b "merge", otherChanging := ← b "otherChanging",
+         otherDelays := ← b "otherDelays", mergeChanges := ← b "mergeChanges", delReset := ← b "delReset" }
+
+def snapOf? (j : Json) : Option Snap := do
+  some { rv := ← jNat? (← jField? j "rv"), marked := ← jBool? (← jField? j "marked"),
+         fins := ← jStrList? (← jField? j "fins"), matchDel := ← jBool? (← jField? j "matchDel"),
+         matchDmn := ← jBool? (← jField? j "matchDmn") }
+
+def labelOf? (j : Json) : Option LLabel := do
+  match ← jArr? j with
+  | [.str "decide", e, v] => some (.base (.decide (← envOf? e) (← snapOf? v)))
+  | [.str "merge"] => some (.base .mergePatch)
+  | [.str "json", f] => some (.base (.jsonPatch (← jBool? f)))
+  | [.str "editFins", l] => some (.base (.editFins (← jStrList? l)))
+  | [.str "mark"] => some (.base .mark)
+  | [.str "write", d, m] => some (.base (.write (← jBool? d) (← jBool? m)))
+  | [.str "handlerFinishes"] => some (.base .handlerFinishes)
+  | [.str "daemonExits", o] => some (.base (.daemonExits (← jBool? o)))
+  | [.str "restart"] => some (.base .restart)
+  | [.str "touch"] => some .touch
+  | _ => none
+
+def snapJson (v : Snap) : Json :=
+  Json.mkObj [("rv", .num (JsonNumber.fromNat v.rv)), ("marked", .bool v.marked), ("fins", strs v.fins),
+              ("matchDel", .bool v.matchDel), ("matchDmn", .bool v.matchDmn)]
+
+/-- The abstract state the harness compares with its snapshot of the real operator and server. -/
+def obsJson (s : LState) : List (String × Json) :=
+  [("gone", .bool s.base.gone), ("marked", .bool s.base.marked), ("fins", strs s.base.fins),
+   ("rv", .num (JsonNumber.fromNat s.base.rv)), ("matchDel", .bool s.base.matchDel), ("matchDmn", .bool s.base.matchDmn),
+   ("delDone", .bool s.base.delDone), ("dmnLive", .bool s.base.dmnLive), ("dmnForever", .bool s.base.dmnForever),
+   ("required", .bool (required s.base)), ("mem", strs (s.base.mem.map fnStr)),
+   ("pending", match s.base.pending with
+      | none => .null
+      | some p => Json.mkObj [("fns", strs (p.fns.map fnStr)), ("merge", .bool p.merge), ("view", strs p.view),
+                              ("fresh", .bool (p.rvTest == s.base.rv))]),
+   ("queue", .arr (s.queue.map (fun v => Json.num (JsonNumber.fromNat v.rv))).toArray),
+   ("sleeping", .bool s.sleeping), ("cycDelays", .bool s.cycDelays)]
+
+/-- Compare the keys the harness supplied; returns the first key that differs. -/
+def firstDiff (model : List (String × Json)) (expect : Json) : Option String :=
+  match expect with
+  | .obj kvs => (kvs.toList.find? (fun (k, v) => match model.find? (·.1 == k) with
+      | some (_, m) => m.compress != v.compress
+      | none => true)).map (·.1)
+  | _ => some "<expectation is not an object>"
+
+/-- items: `[label, expectation]`; pseudo-labels reconcile what only the environment decides:
+`["syncDaemon", live, forever]` (a daemon exit the harness saw in the memory snapshot),
+`["syncDone", done]` (the deletion handler finished inside the pass that follows). -/
+partial def replay (own : String) (s : LState) (i : Nat) : List Json → Json
+  | [] => Json.mkObj [("accepted", .num (JsonNumber.fromNat i))]
+  | item :: rest =>
+    let fail (why : String) (extra : List (String × Json)) : Json :=
+      Json.mkObj ([("failed_at", .num (JsonNumber.fromNat i)), ("why", .str why), ("state", Json.mkObj (obsJson s))] ++ extra)
+    match jArr? item with
+    | some [lab, expect] =>
+      let next : Option LState :=
+        match jArr? lab with
+        | some [.str "syncDaemon", .bool live, .bool forever] =>
+            if s.base.dmnLive && !live then lstep own s (.base (.daemonExits forever)) else some s
+        | some [.str "syncDone", .bool done] =>
+            if done && !s.base.delDone then lstep own s (.base .handlerFinishes) else some s
+        | _ => (labelOf? lab).bind (lstep own s)
+      match next with
+      | none => fail "label not enabled (or unreadable)" [("label", lab)]
+      | some s' =>
+        match firstDiff (obsJson s') expect with
+        | some k => Json.mkObj [("failed_at", .num (JsonNumber.fromNat i)), ("why", .str ("state differs in " ++ k)),
+                                ("label", lab), ("expect", expect), ("state", Json.mkObj (obsJson s'))]
+        | none => replay own s' (i + 1) rest
+    | _ => fail "unreadable item" []
+
 def handle : DrvHandler := fun op args =>
   match op, args with
   | "C06.block", [f, l] => do
@@ -49,12 +126,21 @@ def handle : DrvHandler := fun op args =>
       let s : State := { gone := false, marked := marked, fins := view, rv := if accepted then 0 else 1,
                          matchDel := false, matchDmn := false, delDone := false, dmnLive := false,
                          dmnForever := false, mem := [],
-                         pending := some { fns := fns, rvTest := 0, view := view, merge := false } }
+                         pending := some { fns := fns, rvTest := 0, view := view, merge := false, mergeChanges := false } }
       match step own s (.jsonPatch false) with
       | some s' => some (ok (Json.mkObj [("fins", strs s'.fins), ("carried", strs (s'.mem.map fnStr)),
                                           ("gone", .bool s'.gone), ("written", .bool (s'.rv != s.rv)),
                                           ("sent", .bool (applyFns own fns view != view))]))
       | none => some (err "disabled")
+  -- trace acceptance: [own, {fins, marked, matchDel, matchDmn}, items]
+  | "C06.replay", [f, init, items] => do
+      let own ← jStr? f
+      let b : State := { gone := false, marked := ← jBool? (← jField? init "marked"), fins := ← jStrList? (← jField? init "fins"),
+                         rv := 0, matchDel := ← jBool? (← jField? init "matchDel"), matchDmn := ← jBool? (← jField? init "matchDmn"),
+                         delDone := false, dmnLive := false, dmnForever := false, mem := [], pending := none }
+      let s : LState := { base := b, queue := [snap b], sleeping := false, cycDelays := false, cycMerge := false,
+                          cycChanges := false, cycViewRv := 0 }
+      some (ok (replay own s 0 (← jArr? items)))
   | _, _ => none
 
 end Kopf.Drv.C06
